@@ -82,6 +82,8 @@ impl Engine for FileE2e {
         let fault_budget = if overflow { 0 } else { fault_budget };
         let reuse = ch.chance(1, 2);
         let writer_kind = if overflow { 0 } else { ch.weighted(&[5, 2, 2, 2, 2, 2]) };
+        // how the application holds the emitter: 0 as is, 1 Arc, 2 Option, 3 Wrap, 4/5 And with Empty on either side (And splits the timeout)
+        let holder = ch.weighted(&[4, 1, 1, 1, 1, 1]);
         let max_size = *ch.pick(&[1usize << 30, 300, 120]);
         // (overflow mode: one big file, so retention never deletes what the oracle looks for)
         let max_size = if overflow { 1usize << 30 } else { max_size };
@@ -104,7 +106,7 @@ impl Engine for FileE2e {
         let sched = Sched::new(std::mem::replace(ch, Choices::from_record(&[])), ctx.want_trace, 200_000);
         let prev = simthread::enter(&sched);
         sched.log(format!(
-            "config: sets={} events={n_events} fault_budget={fault_budget} stall_mode={stall_mode} reuse={reuse} max_size={max_size} final_flush={final_flush} writer_kind={writer_kind}",
+            "config: sets={} events={n_events} fault_budget={fault_budget} stall_mode={stall_mode} reuse={reuse} max_size={max_size} final_flush={final_flush} writer_kind={writer_kind} holder={holder}",
             if two_sets { 2 } else { 1 }
         ));
 
@@ -282,9 +284,21 @@ impl Engine for FileE2e {
                             s
                         };
                         let metrics = if overflow { Some(set_a.metric_source()) } else { None };
-                        let emitter: Box<dyn emit::emitter::ErasedEmitter + Send + Sync> = match set_b {
+                        type Erased = Box<dyn emit::emitter::ErasedEmitter + Send + Sync>;
+                        let inner: Erased = match set_b {
                             Some(b) => Box::new(set_a.and_to(b)),
                             None => Box::new(set_a),
+                        };
+                        let emitter: Erased = match holder {
+                            0 => inner,
+                            1 => Box::new(Arc::new(inner)),
+                            2 => Box::new(Some(inner)),
+                            3 => Box::new(emit::emitter::wrap(
+                                inner,
+                                emit::emitter::wrapping::from_filter(emit::filter::from_fn(|_| true)),
+                            )),
+                            4 => Box::new(emit::Empty.and_to(inner)),
+                            _ => Box::new(inner.and_to(emit::Empty)),
                         };
                         let mut emitted = 0usize;
                         let mut do_flush = |emitted: usize, ms: u64| {
